@@ -148,7 +148,7 @@ CHECKS["C09"] = dict(
 CHECKS["C14"] = dict(
     engine="symx+z3",
     technique="bounded symbolic execution (symx/z3) of the real Trio glue over solver-enumerated task-tree shapes and thread-hop chains, each path a deterministic real trio.run; oracle = Trio's own child_nurseries / child_tasks and the construction order of the hops",
-    text="Task trees of depth <= 2 (thorough 3), fan-out <= 2, <= 2 nested nurseries per task (57 shapes quick, several hundred thorough), each task blocked in its innermost body or in a nursery's __aexit__, 4 nursery-body endings, recurse_child_tasks on/off: each open nursery appears once in nesting order with obj the trio.Nursery and children exactly its child tasks (by root identity), recursively, no error, no warning. to_thread/from_thread alternation depth 0..3 (thorough 5), observed by another task and by the innermost level: the visible frames continue through every level in order with the bridging internals hidden.",
+    text="Task trees of depth <= 2 (thorough 3), fan-out <= 2, <= 2 nested nurseries per task (57 shapes quick, several hundred thorough), each task blocked in its innermost body or in a nursery's __aexit__, 5 nursery-body shapes (plain, try/finally, try/except, conditional return, two nested nurseries in one frame), recurse_child_tasks on/off: each open nursery appears once in nesting order with obj the trio.Nursery and children exactly its child tasks (by root identity), recursively, no error, no warning. to_thread/from_thread alternation depth 0..3 (thorough 5), observed by another task and by the innermost level: the visible frames continue through every level in order with the bridging internals hidden.",
     note="LOW SOLVER LEVERAGE. Every run is deterministic: tasks observed after wait_all_tasks_blocked(), threads parked on Events; free-running threads are outside. Hop chains are rooted in a Trio task or in a foreign thread calling from_thread.run(trio_token=...); the foreign root at depth >= 3 produced finding F12 (repaired, fix: 0ae3ae7). F2 shapes (nursery body ending in try/except or `if: return`, task blocked in that nursery's __aexit__) were reported through the shared classifier until F2 was repaired. DESIGN.md 5.C14 explains why this was first declared not applicable and what changed.",
     ref="DESIGN.md 0a / 5.C14",
 )
